@@ -67,7 +67,7 @@ theorem C04_source_wire (b : Bytes) (hb : b.length < 9223372036854775808) (num :
 regenerated store facts show the Go code has none either (no `dec.buffer[i] = …`, no `copy` into
 it, no `append` to it: the only stores are into the cursor fields, the outputs and `*out`) -/
 theorem C04_input_never_written :
-    Gen.paramStores = Tie.expectedParamStores ∧ Gen.copyCalls = Tie.expectedCopyCalls :=
+    Tie.storesOK Gen.paramStores Gen.copyCalls = true :=
   Tie.stores_are_the_modelled_ones
 
 /-- non-vacuity: the input that made the pinned tree panic (`78` into a capturing message) is an
